@@ -430,7 +430,18 @@ func init() {
 	})
 	register("C19", func(c *core.Ctx) {
 		asCheck(c, asPlan{prop: "C19", monitors: []string{"StreamMon"}, mc: t3, gen: g3, ops: asOpsStream, directed: asZombieSubscriber,
-			rule: base + "Judged by StreamMon."})
+			rule: base + "Judged by StreamMon. Plus an ungated run: two goroutines publish continuously while a third subscribes and unsubscribes an actor; publications that provably started after Unsubscribe returned must not arrive."})
+		if c.IsBroken() {
+			return
+		}
+		st, err := runStreamStress(c, core.Pick(c, 4000, 40000))
+		if err != nil {
+			c.Broken("stream stress: %v", err)
+			return
+		}
+		res := ValidateTraces(c, "asmon", "StreamMon", "StreamMon.cfg", st, asDefaults)
+		res.Report(c, "StreamMon")
+		c.Add("traces_validated_against_impl", int64(res.Validated))
 	})
 	register("C08", func(c *core.Ctx) {
 		asCheck(c, asPlan{prop: "C08", monitors: []string{"SuperviseMon"}, mc: t3, gen: g3, ops: [][2]string{{"nop", ""}, {"nop", ""}, {"fail", ""}, {"tell", "@"}}, directed: asOverlappingEscalations,
